@@ -8,6 +8,8 @@ import (
 	"sort"
 
 	"gitlab.com/gomidi/midi/v2"
+	cc "gitlab.com/gomidi/midi/v2/internal/verifh/conccases"
+	cp "gitlab.com/gomidi/midi/v2/internal/verifh/concpairs"
 	"gitlab.com/gomidi/midi/v2/internal/verifh/engine"
 	"gitlab.com/gomidi/midi/v2/internal/verifh/refsmf"
 	"gitlab.com/gomidi/midi/v2/sequencer"
@@ -672,6 +674,9 @@ func longSongs() {
 func main() {
 	ctx = engine.Start("C20", "exploration")
 	if ctx.ReplayPath != "" {
+		if cp.Replay(ctx, ctx.LoadReplay(), "export", cc.Export()) {
+			ctx.Finish("replay")
+		}
 		m := ctx.LoadReplay()
 		s := song{res: uint16(m["resolution"].(float64))}
 		for _, x := range m["raw_sigs"].([]interface{}) {
@@ -689,6 +694,10 @@ func main() {
 	}
 	ctx.Assume("domain: numerators 1..24 over denominators 1,2,4,8,16,32 whose bar fits in 255 thirty-second notes; resolutions divisible by 8; durations end within the song; the order of simultaneous events is not judged (multisets per tick)")
 	n := len(allSigs())
+	ctx.Jobs("concurrent", 1, func(int) {
+		cp.Litmus(ctx)
+		cp.Check(ctx, "export", cc.Export())
+	})
 	ctx.Jobs("signatures", n, func(j int) { signatureSpace(j) })
 	ctx.Jobs("events", 7, func(j int) { eventSpace(j) })
 	ctx.Jobs("long-songs", 1, func(int) { longSongs() })
